@@ -280,7 +280,7 @@ def obligations(tier: str):
     import pyimpspec.analysis.kramers_kronig.utility as ut
     import pyimpspec.analysis.utility as au
     obs = []
-    n_rc, n_f = (2, 2) if tier == "quick" else (3, 3)
+    n_rc, n_f = (2, 2) if tier == "quick" else (4, 4)
     f_ls = [ls._generate_A_matrix, ls._generate_b_vector, ls._update_circuit, ut._generate_circuit]
     for admittance in (False, True):
         for test in ("complex", "real", "imaginary"):
